@@ -333,6 +333,9 @@ class Gen:
                     return same(resp)
                 if z == 'Z':
                     self.add(f'TYPED WVD_ENC {hx(t)}', 'enc', expect_ok_bytes(stri(t)), 'wvd-enc-utc')
+                    if fits:
+                        # this library writes UTC values as text, but a peer may send them in the opaque form
+                        self.add(f'TYPED WVD_DEC {hx(wv_pack(dt, z))}', 'dec', same, 'wvd-dec-utc', kf='wvdate-year')
                 elif z is None:
                     # no zone designator: outside the property (not zone-designated); the model is the reference
                     self.add(f'TYPED WVD_ENC {hx(t)}', 'enc', None, 'wvd-enc-nozone')
@@ -351,6 +354,8 @@ class Gen:
                     lid = rng.choice(LANG_WV)
                     tag = rng.choice(self.wv_date[lid])
                     self.add(f'TYPED RT {lid} E {tag} {hx(t)}', 'any', same_or_err, 'wvd-rt', kf='wvdate-year')
+                    if fits and z == 'Z':
+                        self.add(f'TYPED W2X {lid} E {tag} {hx(opaque(wv_pack(dt, z)))}', 'any', same, 'wvd-w2x-utc', kf='wvdate-year')
                     if fits and z != 'Z':
                         self.add(f'TYPED W2X {lid} E {tag} {hx(opaque(wv_pack(dt, z)))}', 'any', same, 'wvd-w2x', kf='wvdate-year')
                         self.add(f'TYPED W2W {lid} E {tag} {hx(opaque(wv_pack(dt, z)))}', 'any', expect_ok_bytes(opaque(wv_pack(dt, z))), 'wvd-w2w', kf='wvdate-year')
